@@ -372,6 +372,28 @@ def run(ctx, impl_only=False):
                         ctx.violate(case, 'DeepDiff raised %s' % type(e).__name__)
                     elif d:
                         ctx.violate(case, 'two datetimes of one local %s give a non-empty diff under truncate_datetime=%r: %s' % (unit, unit, str(d)[:150]))
+    # flat sequences of plain leaves with a repeated datetime / string (the difflib pass aligns the repeat with its twin and shifts the rest; only
+    # the pairwise pass is empty and must be the one kept), each item altered in what the option drops
+    D0 = datetime.datetime(2021, 3, 4, 5, 6, 7, tzinfo=UTC)
+    for i in range(max(6, n // 10)):
+        base = [D0 + datetime.timedelta(days=k) for k in range(ctx.rng.randint(2, 4))]
+        xs = [base[0]] + base                                   # [D, D, E, F]
+        ys = [v + datetime.timedelta(microseconds=ctx.rng.randint(1, 900)) if ctx.rng.random() < 0.8 else v for v in xs]
+        ys[1] = xs[1]
+        mk_ = ctx.rng.choice([list, tuple])
+        for x, y, kw, what in [(mk_(xs), mk_(ys), dict(truncate_datetime='second'), 'truncate_datetime'),
+                               (mk_(['a', 'A'] + xs[1:]), mk_(['A', 'A'] + ys[1:]), dict(truncate_datetime='second', ignore_string_case=True), 'truncate_datetime + ignore_string_case'),
+                               (mk_(['k', 'K', 'm', 'n']), mk_(['K', 'K', 'M', 'N']), dict(ignore_string_case=True), 'ignore_string_case')]:
+            for w in (lambda v: v, lambda v: {'l': v}):
+                ctx.evaluations += 1
+                d, e = safe_diff(w(x), w(y), **kw)
+                case = {'clause': 'normaliser', 'option': what + ' on a flat sequence with a repeated item', 'x': repr(w(x)), 'y': repr(w(y)), 'zip': False}
+                ctx.count('normaliser:repeated_item_flat')
+                ctx.nontriv(('flatrep', repr(x), repr(y), what))
+                if e is not None:
+                    ctx.violate(case, 'DeepDiff raised %s' % type(e).__name__)
+                elif d:
+                    ctx.violate(case, 'items altered only in what %s ignores give a non-empty diff: %s' % (what, str(d)[:150]))
     # datetimes where DeepDiff compares by digest (members of sets and frozensets, tuples in sets, items under ignore_order):
     # the digest must read a naive datetime the way the comparison of two leaves does -- in the configured default timezone
     NAIVE = [datetime.datetime(2020, 2, 29, 23, 59, 59), datetime.datetime(2024, 5, 1, 0, 15), datetime.datetime(2023, 12, 31, 22, 0, 0, 5)]
